@@ -215,7 +215,9 @@ CLAIMS = {
              "larger capacity: every memcpy/memmove/memset/memcmp/vsnprintf/subscript/std::string( ptr, n) is proved "
              "inside mString[0..L], the source extents and the local scratch buffer; the class invariant "
              "mLength <= L (incl. narrowing into the length type) with a NUL known at mString[ mLength] is assumed at "
-             "entry and proved at every exit, which makes it hold after every sequence of operations. Not decided: "
+             "entry and proved at every exit (also for a string passed by non-const reference), which makes it hold "
+             "after every sequence of operations. The four iterator classes are decided the same way with the "
+             "invariant 'index is the end marker or < length()' from each of its cases. Not decided: "
              "'length equals strlen' beyond the terminator at the length, iterator-taking overloads, operator[] outside "
              "its documented precondition.",
         note="trusted base: clang front end, extractor, cv/lin.py + cv/bounds.py, models of mem*/vsnprintf/std::string; "
